@@ -197,7 +197,7 @@ def parse_template(lines, flavour):
             sink = []
             cur.splices.append(("before-loop", int(s.split()[1]), sink))
         elif re.match(r"//@(before|after|before-stmt|after-stmt|in-block)(\[loop \d+\])? ", s):
-            m = re.match(r"//@(before-stmt|after-stmt|in-block|before|after)(?:\[loop (\d+)\])?\s+`(.*)`\s*(?:#(\d+)/(\d+))?\s*$", s)
+            m = re.match(r"//@(before-stmt|after-stmt|in-block|before|after)(?:\[loop (\d+)\])?\s+`(.*)`\s*(?:#(\d+)/(\d+))?\s*(~tail)?\s*$", s)
             if not m:
                 raise ExtractError("bad splice at %s" % origin)
             sink = []
@@ -207,6 +207,8 @@ def parse_template(lines, flavour):
             where = m.group(1)
             if m.group(2):
                 where = "%s@%s" % (where, m.group(2))     # anchor searched inside the body of loop n only
+            if m.group(6):
+                where = where + "~tail"                    # anchor gone: place the hint before the tail expression instead
             cur.splices.append((where, pats, sink))
         elif s.startswith("//@loop-end "):
             sink = []
@@ -682,6 +684,46 @@ def apply_R15(body, stats):
     return body
 
 
+def apply_R15b(body, stats):
+    """guard clause in a for-loop body: `if C { continue; }` as a statement directly in the loop body -> the rest of the
+    body is wrapped in `if !(C) { .. }` (Verus: "for-loops do not yet support continue").  Repeats until none is left."""
+    while True:
+        m = mask(body)
+        loops = [l for l in find_loops(m) if l["kw"] == "for"]
+        done = True
+        for mm in re.finditer(r"(?<![\w])if\b", m):
+            encl = [l for l in loops if l["hdr_end"] < mm.start() < l["body_close"]]
+            if not encl:
+                continue
+            l = max(encl, key=lambda x: x["hdr_end"])
+            # directly in the loop body: the innermost open brace before the `if` is the loop's
+            if enclosing_open(m, mm.start()) != l["hdr_end"]:
+                continue
+            # condition up to the block
+            i = mm.end()
+            while i < len(m) and m[i] != "{":
+                if m[i] in "([":
+                    i = match_close(m, i)
+                i += 1
+            if i >= len(m):
+                continue
+            close = match_close(m, i)
+            if not re.fullmatch(r"\s*continue\s*;?\s*", m[i + 1:close]):
+                continue
+            if re.match(r"\s*else\b", m[close + 1:]):
+                continue
+            if re.match(r"\s*let\b", m[mm.end():i]):
+                continue   # `if let` guard: not a boolean condition
+            cond = body[mm.end():i].strip()
+            rest = body[close + 1:l["body_close"]]
+            body = body[:mm.start()] + "if !(" + cond + ") {" + rest + "}\n" + body[l["body_close"]:]
+            stats["R15b"] = stats.get("R15b", 0) + 1
+            done = False
+            break
+        if done:
+            return body
+
+
 def apply_R7b(body, stats):
     """serde error payloads built with format! are replaced by an opaque message (string formatting is out
     of the verifier's reach): `de::Error::custom(<anything>)` -> `err_msg()`, and a closure `|| { err_msg() }`
@@ -1012,6 +1054,7 @@ def generate(template_path, flavour, repo="/repo", vacuity=False, rules=None, ba
             body = "\n        let mut slf = self;" + re.sub(r"(?<![\w.])self\b", "slf", body)
             stats["R14"] = stats.get("R14", 0) + 1
         body = apply_R5(body, stats)
+        body = apply_R15b(body, stats)
         body = apply_R15(body, stats)
         if bare and b.id in bare:
             body = apply_R15c(body, stats)
@@ -1052,6 +1095,7 @@ def generate(template_path, flavour, repo="/repo", vacuity=False, rules=None, ba
             if idx in b.loops:
                 pending_loop_specs.append((idx, lp))
         lost = []
+        inexact = []  # hints that were placed, but not exactly where they were written for
         placed = []   # (offset, text, slines, order)
         is_bare = bool(bare and b.id in bare)
         for sidx, (where, pat, slines) in enumerate([] if is_bare else b.splices):
@@ -1098,6 +1142,9 @@ def generate(template_path, flavour, repo="/repo", vacuity=False, rules=None, ba
                     if isinstance(pat, tuple):
                         pats, nth, total = pat
                     lo, hi = 0, len(body)
+                    tail_fb = where.endswith("~tail")
+                    if tail_fb:
+                        where = where[:-5]
                     if "@" in where:
                         where, ln_ = where.split("@")
                         ln_ = int(ln_)
@@ -1109,7 +1156,14 @@ def generate(template_path, flavour, repo="/repo", vacuity=False, rules=None, ba
                         ms.extend(x for x in re.compile(pat_to_regex(alt)).finditer(body) if lo <= x.start() < hi)
                     ms.sort(key=lambda x: x.start())
                     if len(ms) != total and not (len(ms) > total and not isinstance(pat, tuple)):
+                        if tail_fb:
+                            pos = tail_start(m)
+                            placed.append((pos, txt, slines, sidx))
+                            inexact.append("anchor `%s` matched %d times (expected %d): hint placed before the tail expression" % ("` | `".join(pats), len(ms), total))
+                            continue
                         raise ExtractError("anchor `%s` matched %d times (expected %d)" % ("` | `".join(pats), len(ms), total))
+                    if len(ms) != total:
+                        inexact.append("anchor `%s` matched %d times (expected %d): first occurrence taken" % ("` | `".join(pats), len(ms), total))
                     mt = ms[nth - 1]
                     if where == "before":
                         pos = mt.start()
@@ -1177,6 +1231,8 @@ def generate(template_path, flavour, repo="/repo", vacuity=False, rules=None, ba
         if is_bare:
             lost = [(0, "bare mode: the function did not compile with its proof annotations; all hints and loop invariants dropped")]
         hints_lost = rewrites_lost + [msg for _, msg in lost] + ["loop %d annotated but the function has %d loops" % (n, len(loops)) for n in lost_loops]
+        if rmap:
+            inexact.append("locals renamed in the annotations (R19): %s" % ", ".join("%s->%s" % kv for kv in sorted(rmap.items())))
         edits.sort(key=lambda e: (e[0], e[3]), reverse=True)
         for a, bb, rep, _ in edits:
             body = body[:a] + rep + body[bb:]
@@ -1221,7 +1277,7 @@ def generate(template_path, flavour, repo="/repo", vacuity=False, rules=None, ba
         end = len(out)
         g.linemap.append((start, end, b.id))
         g.fns.append(dict(id=b.id, file=b.file, name=b.name, line_start=ex["line_start"], line_end=ex["line_end"], text=real_text, renamed=rmap,
-                          hash=h, props=b.props, rules=stats, novac=b.novac or b.extern_body, hints_lost=hints_lost, guards=guards, heap=b.heap,
+                          hash=h, props=b.props, rules=stats, novac=b.novac or b.extern_body, hints_lost=hints_lost, hints_inexact=inexact, guards=guards, heap=b.heap,
                           gen_start=start, gen_end=end, has_ensures=any(re.match(r"\s*ensures\b", s) for s in b.spec)))
         for k, v in stats.items():
             g.stats[k] = g.stats.get(k, 0) + v
